@@ -111,6 +111,8 @@ func childMain(c *vkit.Ctx) {
 		e2eChild(c)
 	case "listener":
 		listenerChild(c)
+	case "stopburst":
+		stopBurstChild(c)
 	}
 }
 
@@ -127,7 +129,7 @@ func main() {
 	}
 	c.Rule("stage A: every sequential interleaving of connection A (new, accept, tick, accept, close), connection B (new, accept, close; own number or A's number reused after A closed) " +
 		"and one reload (valid / refused / two valid) at the ReloadableOrchestrator API with recording downstream generations; named gate scripts G1 G2 G3 G7 at the vhook points and G8 G9 (a Close / Accept held inside the downstream sink while a reload arrives), each with a valid and a refused reload; " +
-		"free-running stress (2-4 connection goroutines with lowest-free number reuse, 1-6 reloads, perturbation plans) checked with porcupine; listener stage: real sockets with descriptor reuse; " +
+		"free-running stress (2-4 connection goroutines with lowest-free number reuse, 1-6 reloads, perturbation plans) checked with porcupine; listener stage: real sockets with descriptor reuse, and stop-burst scripts (a stop request while connections are open and new ones keep arriving); " +
 		"stage B: real agent with reloads under traffic and new configuration files (identical, label changed, field appended, invalid YAML, unknown field, keys / inputs / maxFields / number of outputs changed); " +
 		"non-trivial = a reload overlapped an open connection or a client number was reused; distinct = case name / outcome")
 	c.Assume("a client number is reused only after the sink of its previous owner was closed (what the listener must guarantee; the listener stage checks that it does)")
@@ -151,6 +153,9 @@ func main() {
 	for i := 0; i < c.N(4, 40); i++ {
 		specs = append(specs, vkit.ChildSpec{Mode: "listener", Tag: fmt.Sprintf("lsn%03d", i), Timeout: 5 * time.Minute, Args: map[string]string{"idx": strconv.Itoa(i)}})
 	}
+	for lo := 0; lo < c.N(120, 1200); lo += 120 {
+		specs = append(specs, vkit.ChildSpec{Mode: "stopburst", Tag: fmt.Sprintf("sb%04d", lo), Timeout: 5 * time.Minute, Args: map[string]string{"lo": strconv.Itoa(lo), "n": "120"}})
+	}
 	for i := 0; i < c.N(10, 80); i++ { // 10 kinds of new configuration file (stageb.go variants): each at least once
 		specs = append(specs, vkit.ChildSpec{Mode: "e2e", Tag: fmt.Sprintf("e2e%03d", i), Timeout: 6 * time.Minute, Args: map[string]string{"idx": strconv.Itoa(i)}})
 	}
@@ -173,6 +178,7 @@ func main() {
 	c.Require("reload_while_connection_open_or_number_reused", 100)
 	c.Require("gate_scripts_reached", 8)
 	c.Require("stress_histories", 100)
+	c.Require("stopburst_iterations", 100)
 	c.Finish()
 }
 
